@@ -28,6 +28,10 @@ func (fs *FS) toOSPath(goos string, separator rune, op, fsPath string) (string, 
 	if !hackpadfs.ValidPath(fsPath) {
 		return "", &hackpadfs.PathError{Op: op, Path: fsPath, Err: hackpadfs.ErrInvalid}
 	}
+	if separator != '/' && (strings.ContainsRune(fsPath, separator) || strings.ContainsRune(fs.root, separator)) {
+		// the OS would read the separator inside an element as a path separator (and '..' elements could then leave the root)
+		return "", &hackpadfs.PathError{Op: op, Path: fsPath, Err: hackpadfs.ErrInvalid}
+	}
 	fsPath = path.Join("/", fs.root, fsPath)
 	filePath := joinSepPath(string(separator), fs.getVolumeName(goos), fromSeparator(separator, fsPath))
 	return filePath, nil
